@@ -479,23 +479,42 @@ def r_opt_rules(ctx):
     seen = set()
     for run in mandatory_runs(runs):
         kind = kind_of(run)
-        seen.add(kind)
-        pb = {"min": "PbGe", "max": "PbLe", "exact": "PbEq"}.get(kind)
+        kinds = [kind]
+        if kind is None:
+            # the path never had to tell some kinds apart: it stands for each of the kinds still possible
+            d_ = run.doms.get(T("kind"))
+            kinds = sorted(d_.vals) if d_ is not None and d_.vals else []
+            if not kinds:
+                raise P.AnalysisError(f"R-PB-TABLE: {cname}: kind undetermined on a path")
+        seen.update(kinds)
         own = [e for e in run.emissions if e.owner == S("self")]
-        location = loc(own[0]) if own else first_line(ctx.project, cname)
-        want = norm(app(pb, ("list", (("each", (L,), (), ("tuple", (A(elem(L), "_scheduled"), TRUE))),)), T("nb_tasks_to_schedule")))
-        got = [norm(e.term) for e in own]
-        if got == [want]:
-            ctx.ok("R-PB-TABLE", f"{where} kind={kind}", sample={"emitted": show(want)[:240]})
-        else:
-            ctx.violation("R-PB-TABLE", where, f"kind={kind}: cardinality over the scheduled flags",
-                          f"expected {show(want)[:240]}, emitted {[show(g)[:240] for g in got]}", location)
-        raises = [ev for ev in run.events_of("raise") if "optional" in show(And(*ev.guards))] if run.events_of("raise") else []
-        if any(ev.loops and norm(ev.loops[0][3]) == T("list_of_optional_tasks") for ev in raises):
-            ctx.ok("R-RAISE-OPTIONAL", f"{where} kind={kind} rejects a mandatory task in the list")
-        else:
-            ctx.violation("R-RAISE-OPTIONAL", where, "mandatory task in the list accepted",
-                          f"{cname} does not reject a list element that is not optional", location)
+        n_dom = run.doms.get(T("nb_tasks_to_schedule"))
+        n_side = []
+        if n_dom is not None and n_dom.is_int:
+            if n_dom.lo is not None:
+                n_side.append(ge(T("nb_tasks_to_schedule"), K(n_dom.lo)))
+            if n_dom.hi is not None:
+                n_side.append(le(T("nb_tasks_to_schedule"), K(n_dom.hi)))
+        for kind in kinds:
+            pb = {"min": "PbGe", "max": "PbLe", "exact": "PbEq"}.get(kind)
+            location = loc(own[0]) if own else first_line(ctx.project, cname)
+            want = norm(app(pb, ("list", (("each", (L,), (), ("tuple", (A(elem(L), "_scheduled"), TRUE))),)), T("nb_tasks_to_schedule")))
+            got = [norm(e.term) for e in own]
+            rel = {"min": ">=", "max": "<=", "exact": "=="}[kind]
+            sem_ok, sem_detail = (False, "")
+            if len(own) == 1 and not own[0].loops and not own[0].guards:
+                sem_ok, sem_detail = decide_cardinality(own[0].term, ("each", (L,), (), A(elem(L), "_scheduled")), rel, T("nb_tasks_to_schedule"), side=n_side)
+            if got == [want] or sem_ok:
+                ctx.ok("R-PB-TABLE", f"{where} kind={kind}", sample={"emitted": show(got[0])[:240], "decided_by": sem_detail or "identical term"})
+            else:
+                ctx.violation("R-PB-TABLE", where, f"kind={kind}: cardinality over the scheduled flags",
+                              f"expected {show(want)[:240]}, emitted {[show(g)[:240] for g in got]}" + (f" - {sem_detail}" if sem_detail else ""), location)
+            raises = [ev for ev in run.events_of("raise") if "optional" in show(And(*ev.guards))] if run.events_of("raise") else []
+            if any(ev.loops and norm(ev.loops[0][3]) == T("list_of_optional_tasks") for ev in raises):
+                ctx.ok("R-RAISE-OPTIONAL", f"{where} kind={kind} rejects a mandatory task in the list")
+            else:
+                ctx.violation("R-RAISE-OPTIONAL", where, "mandatory task in the list accepted",
+                              f"{cname} does not reject a list element that is not optional", location)
     if seen != {"min", "max", "exact"}:
         raise P.AnalysisError(f"R-PB-TABLE: {cname}: kinds seen {seen}")
 
